@@ -18,7 +18,7 @@ func init() {
 	core.Register(&core.Check{
 		ID:    "C04",
 		Level: "model_checking",
-		Rule: "12 chain contexts ({.,@,$} x {plain,&,~,=}) x 3 call forms (property, literal, variable) x receivers (arrays of n<=4 (thorough 5) tagged elements, each in {value,nil-result,raise,nil element}; scalar receivers; " +
+		Rule: "12 chain contexts ({.,@,$} x {plain,&,~,=}) x 3 call forms (property, literal, variable) x receivers (arrays of n<=4 (thorough 5) tagged elements, each in {value,nil-result,raise,nil element}, with r/comb either props of the elements' prototype or answered by its _missing (n<=3, thorough 4); scalar receivers; " +
 			"int/str/range/obj/map/iterator receivers with 3 callee variants) x chain argument {absent, [], {}, %{}} / initial accumulator {absent, given}; result and call trace compared with a chain model; " +
 			"non-trivial = at least one element whose result is nil or a raise, a nil element, or a chain argument; distinct = distinct source",
 		Assumptions: []string{
@@ -34,6 +34,7 @@ func init() {
 }
 
 const prelude = `E := Int.bear({r: m{("c" + .S).p; return nil if ((self % 10) <=> 2) == 0; raise ValueErr.new("bad" + .S) if ((self % 10) <=> 3) == 0; self + 100}, comb: m{|e| ("c" + e.S).p; return nil if ((e % 10) <=> 2) == 0; raise ValueErr.new("bad" + e.S) if ((e % 10) <=> 3) == 0; self + e}})
+EM := Int.bear({_missing: m{|name, e| return E['r](self) if name == 'r; return E['comb](self, e) if name == 'comb; raise NoPropErr.new("no " + name.S)}})
 fr := {|e| e.r}
 fc := {|acc, e| acc.comb(e)}
 `
@@ -48,6 +49,7 @@ type tcase struct {
 	Arg   string `json:"arg,omitempty"` // chain argument / init source, "" = absent
 	Recv  string `json:"recv,omitempty"`
 	Var   string `json:"var,omitempty"` // callee variant for "other" receivers
+	Cls   string `json:"cls,omitempty"` // "" = elements are E (r/comb are props of the prototype), "EM" = resolved through the prototype's _missing
 }
 
 type outcome struct {
@@ -57,11 +59,14 @@ type outcome struct {
 	errM string
 }
 
-func elemSrc(e int) string {
+func elemSrc(e int, cls string) string {
 	if e == 0 {
 		return "nil"
 	}
-	return fmt.Sprintf("E.new(%d)", e)
+	if cls == "" {
+		cls = "E"
+	}
+	return fmt.Sprintf("%s.new(%d)", cls, e)
 }
 
 type res struct {
@@ -189,15 +194,18 @@ func (t tcase) src() string {
 	}
 	parts := make([]string, len(t.Elems))
 	for i, e := range t.Elems {
-		parts[i] = elemSrc(e)
+		parts[i] = elemSrc(e, t.Cls)
 	}
 	recv := "[" + strings.Join(parts, ", ") + "]"
 	if t.Kind == "scalar" {
-		recv = "(" + elemSrc(t.Elems[0]) + ")"
+		recv = "(" + elemSrc(t.Elems[0], t.Cls) + ")"
 	}
 	arg := ""
 	if t.Arg != "" {
 		arg = "(" + t.Arg + ")"
+		if t.Cls != "" {
+			arg = strings.Replace(arg, "E.new(", t.Cls+".new(", 1)
+		}
 	}
 	prop, lit, v := "r", "{|e| e.r}", "^fr"
 	if t.Kind == "reduce" {
@@ -327,6 +335,16 @@ func gen(thorough bool, emit func(tcase)) {
 	if thorough {
 		maxN = 5
 	}
+	genCls("", maxN, emit)
+	// the same contexts over elements whose r/comb are answered by the prototype's _missing
+	genCls("EM", maxN-1, func(t tcase) {
+		t.Cls = "EM"
+		emit(t)
+	})
+	genRest(emit)
+}
+
+func genCls(cls string, maxN int, emit func(tcase)) {
 	// scalar chains
 	for _, add := range adds {
 		for _, f := range forms {
@@ -379,6 +397,9 @@ func gen(thorough bool, emit func(tcase)) {
 			})
 		}
 	}
+}
+
+func genRest(emit func(tcase)) {
 	// other receiver kinds in literal and variable form
 	for _, add := range adds {
 		for _, f := range []string{"literal", "variable"} {
@@ -463,6 +484,9 @@ func keyOf(t tcase, want outcome, o panrun.Obs) string {
 	case hasRaise:
 		sub = "/raise"
 	}
+	if t.Cls != "" {
+		sub += "/via-_missing"
+	}
 	return "chain" + ch + "/" + t.Form + "/" + class + sub
 }
 
@@ -536,7 +560,7 @@ type groupObs struct {
 var groups = map[string]*groupObs{}
 
 func groupKey(t tcase) string {
-	return fmt.Sprintf("%s|%s|%s|%v|%s|%s|%s", t.Kind, t.Main, t.Add, t.Elems, t.Arg, t.Recv, t.Var)
+	return fmt.Sprintf("%s|%s|%s|%v|%s|%s|%s|%s", t.Kind, t.Main, t.Add, t.Elems, t.Arg, t.Recv, t.Var, t.Cls)
 }
 
 func crossForm(c *core.Ctx, t tcase, o panrun.Obs) {
@@ -580,6 +604,9 @@ func nilTag(t tcase) string {
 		if e == 0 {
 			return "/nil-element"
 		}
+	}
+	if t.Cls != "" {
+		return "/via-_missing"
 	}
 	return ""
 }
